@@ -77,6 +77,8 @@ def c03(ctx, v):
     M.r_once(ctx, v)  # the pop_*_if family removes exactly the element its predicate saw
     M.r_assign(ctx, v)
     M.r_readers(ctx, v)
+    # "iter, into_iter ... report exactly that set": the wrappers around indexmap's iterators forward every method they define
+    I.r_esi(ctx, v, only_types=lambda T_: T_.startswith("core_iterators::"), key_floor=3)
     M.r_returns(ctx, v)
     D.r_keymut(ctx, v, only=("k3",))
     M.r_strat(ctx, v)
@@ -161,7 +163,9 @@ def c07(ctx, v):
     only = lambda root, d: d.kind == "BULK"
     O.r_restore(ctx, v, PQ, only=only)
     O.r_restore(ctx, v, DPQ, only=only)
-    T.r_tables(ctx, v, want=("R-GROW",), only=lambda f: any(k in f.key for k in ("::from", "::from_iter", "::extend", "::append")))
+    bulk = lambda f: any(k in f.key for k in ("::from", "::from_iter", "::extend", "::append"))
+    T.r_tables(ctx, v, want=("R-GROW",), only=bulk)
+    T.r_growval(ctx, v, only=bulk)
 
 
 def c08(ctx, v):
@@ -206,6 +210,8 @@ def c12(ctx, v):
     O.r_extreme(ctx, v, DPQ, only=("peek_min", "peek_min_mut", "peek_max", "peek_max_mut"))
     if B:
         B.r_units(ctx, v)
+    # "changes made ... through iter_mut persist": each element is handed out once, by the cursor discipline
+    I.r_cursor(ctx, v)
 
 
 def c13(ctx, v):
@@ -247,7 +253,10 @@ def c17(ctx, v):
 
 def c18(ctx, v):
     D.r_nohash(ctx, v)
-    fixture_once(ctx, ["R-NOHASH"])
+    fixture_once(ctx, ["R-NOHASH", "R-CAPFWD"])
+    # the capacity a hash table reports depends on how its hasher spread the keys (tombstones): behaviour that depends on
+    # capacity() depends on the hasher
+    D.r_capinvisible(ctx, v)
 
 
 TRUST_RUSTC = "rustc type checking, trait resolution and MIR construction (the analysis reads what the compiler compiles)"
@@ -300,7 +309,7 @@ PROPS = {
             "R-HINT (taint: the upper bound of Iterator::size_hint reaches no allocation request and no overflow-checked arithmetic, "
             "interprocedurally), R-STRAT (first/last/receiver-wins table; both Extend strategies write the same part of a present entry; append "
             "swaps only if other is strictly longer and always drains other), R-RESTORE BULK instances (heap_build after every bulk path), "
-            "R-GROW for from/from_iter/extend/append, R-CONSUME (every path of extend/from_iter/from reads the whole source: no early return "
+            "R-GROW and R-GROWVAL for from/from_iter/extend/append, R-CONSUME (every path of extend/from_iter/from reads the whole source: no early return "
             "on a size hint or a length, loops over next() end only on None).", "trusted": [TRUST_RUSTC], "assumptions": []},
     "C08": {"rules": [c08], "explanation":
             "R-RESTORE for retain/retain_mut/pop_*_if/IterMut-Drop, R-ONCE (user predicate invoked exactly once per element/call, only through "
@@ -325,7 +334,8 @@ PROPS = {
     "C12": {"rules": [c12], "explanation":
             "R-KEYMUT, a who-may-call rule over the typed indexmap API: (k1) the set of functions that can obtain `&mut I` of a stored key equals "
             "the sanctioned accessor set, (k2) push/push_increase/push_decrease/change_priority(_by) reach neither such a function nor any "
-            "entry-removing or reordering map write, (k3) the sift functions never write the map, (k4) lookups forward the borrowed key unmodified.",
+            "entry-removing or reordering map write, (k3) the sift functions never write the map, (k4) lookups forward the borrowed key unmodified; R-EXTREME / R-UNITS for the mutable "
+            "accessors (they address the element they claim to); R-CURSOR (iter_mut hands each element out once).",
             "trusted": [TRUST_RUSTC, "indexmap: insert/entry keep the stored key of a present entry; only MutableKeys/replace APIs yield &mut K"],
             "assumptions": ["interior mutability inside user item types is outside the property"]},
     "C13": {"rules": [c13], "explanation":
@@ -358,7 +368,8 @@ PROPS = {
     "C18": {"rules": [c18], "explanation":
             "R-NOHASH: no call site in any crate body resolves to a method of Hash/Hasher/BuildHasher, to IndexMap::hasher or to a raw-hash API; "
             "values of the hasher type flow only into constructors; no comparison bound on the hasher parameter. By parametricity the crate can "
-            "then depend on the hasher only through the insertion-ordered map.",
+            "then depend on the hasher only through the insertion-ordered map; capacity-invisibility (the capacity a hash table reports "
+            "depends on how its hasher spread the keys).",
             "trusted": [TRUST_RUSTC, "indexmap is hasher-independent as an insertion-ordered map given consistent Hash/Eq"], "assumptions": []},
 }
 
